@@ -160,7 +160,7 @@ impl<'a> GeneratorState<'a> {
                     .syntax_error("Unexpected expression type", pos));
             }
             ExprType::Absolute(variable, eight_bits, off) => {
-                let v = self.compiler_state.get_variable(variable);
+                let v = self.compiler_state.find_variable(variable, pos)?;
                 signed = v.signed;
                 let offset = if v.memory == VariableMemory::Superchip {
                     match mnemonic {
